@@ -131,17 +131,78 @@ Theorem C14_offered_within_declared :
 Proof. exact offered_within_declared. Qed.
 Print Assumptions C14_offered_within_declared.
 
+(* The property text has no exception for referrers without identifier:
+   "same measurement" = both identifiers absent, or both present and equal /
+   prefix ([StrictMatches]).  The code makes no check when the referrer has
+   none (finding C14-idless-referrer-unchecked): refuted in general ... *)
+Theorem C14_same_measurement_served_refuted :
+  exists (w : world) (fm : fmt) (i : nat) (t : tree) (feat s : Z),
+    build w (fuel_for w) fm i [] = Some t
+    /\ tget w t feat = Some s /\ ~ StrictSrc w t feat s.
+Proof. exact same_measurement_served_refuted. Qed.
+Print Assumptions C14_same_measurement_served_refuted.
+
+(* ... and true whenever no followed basin carries an identifier that its
+   referrer lacks (boolean guard [referrers_identified]). *)
+Theorem C14_same_measurement_served_partial :
+  forall (w : world) (fuel : nat) (fm : fmt) (i : nat) (ign : list Z)
+         (t : tree) (feat s : Z),
+    build w fuel fm i ign = Some t ->
+    referrers_identified w t = true ->
+    tget w t feat = Some s -> StrictSrc w t feat s.
+Proof. exact same_measurement_served_partial. Qed.
+Print Assumptions C14_same_measurement_served_partial.
+
+(* Positive directions: every feature of an available basin is listed ... *)
+Theorem C14_available_basin_features_listed :
+  forall (w : world) (t : tree) (rb : rbasin) (ot : option tree) (feat : Z),
+    In (rb, ot) (kids_list (tree_kids t)) -> rb_avail rb = true ->
+    In feat (match ot with
+             | None => leaf_feats rb
+             | Some t' => node_feats w rb t'
+             end) ->
+    In feat (tfb w t).
+Proof. exact available_basin_features_listed. Qed.
+Print Assumptions C14_available_basin_features_listed.
+
+(* ... and a feature that a verified basin can deliver is delivered. *)
+Theorem C14_matching_basin_served :
+  forall (w : world) (t : tree) (rb : rbasin) (t' : tree) (feat s' : Z),
+    In (rb, Some t') (kids_list (tree_kids t)) -> verify w rb = true ->
+    In feat (node_feats w rb t') -> tget w t' feat = Some s' ->
+    exists s, tget w t feat = Some s.
+Proof. exact matching_basin_served. Qed.
+Print Assumptions C14_matching_basin_served.
+
+(* Isolation for every nested dataset, whatever the root format: below a
+   dataset accessed through a network format nothing is opened locally. *)
+Theorem C14_no_local_below_remote :
+  forall (w : world) (fuel : nat) (fm : fmt) (i : nat) (ign : list Z)
+         (t : tree),
+    build w fuel fm i ign = Some t ->
+    Forall (fun t' => local_allowed (tree_fmt t') = false ->
+                      ttouched t' = []
+                      /\ Forall (fun rb => class_type (rb_class rb) <> TFile)
+                                (tree_edges t'))
+           (subtrees t).
+Proof. exact no_local_below_remote. Qed.
+Print Assumptions C14_no_local_below_remote.
+
 (* Bridge to the tree under test (regenerated on every run): the values of
    `_local_basins_allowed` per dataset class, the basin_type / basin_format /
-   loaded dataset class per basin class, and the presence of the refusals in
-   basins_retrieve are the ones the model was written for. *)
+   loaded dataset class per basin class are the ones the model was written
+   for; the real basins_retrieve, executed on stub definitions, instantiates
+   exactly the (type, format) combinations the model's retrieve_one does,
+   with and without permission for local basins, skips ignored keys and
+   passes every definition's key down. *)
 From Verif Require Import Gen.BasinFlags Proofs.C14_flags.
 
 Theorem C14_flags_as_modelled :
   gen_local_allowed = model_local_allowed
   /\ gen_has_basin_dicts = model_has_basin_dicts
   /\ gen_basin_classes = model_basin_classes
-  /\ gen_retrieve_guard = (true, true, true).
+  /\ gen_retrieve_matrix = model_retrieve_matrix
+  /\ gen_cycle_guard = model_cycle_guard.
 Proof. exact flags_as_modelled. Qed.
 Print Assumptions C14_flags_as_modelled.
 
